@@ -3,6 +3,7 @@ C18 — YAML loading never instantiates anything that is not a registered plugin
 General theorems about the dispatch model, then theorems about the *regenerated* table of the
 loader class that `cobald.daemon.core.config.load` uses (Generated/Tables.lean).
 -/
+import CobaldVerif.Generated.Src
 import CobaldVerif.Generated.Tables
 
 namespace Cobald.Props.C18
@@ -212,5 +213,20 @@ def exDoc : Node := .map mapTag [(.scalar strTag, .seq ("!LinearController".toLi
 example : construct cobaldLoader exDoc = none := by decide +kernel
 example : (construct cobaldLoader (.map mapTag [(.scalar strTag, .map ("!LinearController".toList) [])])).isSome = true := by
   decide +kernel
+
+/-! ### the source text the model was transcribed from
+
+`cobald/daemon/config/yaml.py` and the tag settings of `plugins.py`: what a registered tag's constructor does with its node, and that the document is loaded with the loader class whose tables are regenerated.
+`Gen.runtimePins` (recomputed on every run) says for each of these functions whether its normalised
+text is still the text of `harness/vh/pins.json`; a changed function breaks this theorem and the
+correspondence streams are then the search for a failing input. -/
+
+theorem gen_source_text :
+    ∀ n ∈ ["yaml:yaml_constructor",
+     "yaml:load_configuration",
+     "plugins:yaml_tag",
+     "plugins:YAMLTagSettings.fetch",
+     "plugins:YAMLTagSettings.mark"],
+      Gen.pinned n = true := by decide
 
 end Cobald.Props.C18
